@@ -1,5 +1,6 @@
 import MitmVerif.Model.C50
 import MitmVerif.Model.C50_Https
+import MitmVerif.Model.C50_Codecs
 import Driver.Proto
 open MitmVerif Driver
 
@@ -58,6 +59,36 @@ def c50Step (line : String) : String :=
         | none => "raise"
       | none => "bad-op"
     | _, _ => "bad-op"
+  | ["utf8", h] =>
+    match hexOr h with
+    | some b =>
+      match C50.Codecs.utf8Dec b with
+      | none => "none"
+      | some s => showCps50 s ++ " " ++ (match C50.Codecs.utf8Enc s with | some e => showBytes e | none => "raise")
+    | none => "bad-op"
+  | ["utf8e", c] =>
+    match parseCps50 c with
+    | some s => (match C50.Codecs.utf8Enc s with | some e => showBytes e | none => "raise")
+    | none => "bad-op"
+  | ["ip4", h] =>
+    match hexOr h with
+    | some b =>
+      match C50.Codecs.ip4Dec b with
+      | none => "none"
+      | some s => showCps50 s ++ " " ++ (match C50.Codecs.ip4Enc s with | some e => showBytes e | none => "raise")
+    | none => "bad-op"
+  | ["ip4e", c] =>
+    match parseCps50 c with
+    | some s => (match C50.Codecs.ip4Enc s with | some e => showBytes e | none => "raise")
+    | none => "bad-op"
+  | ["name", h] =>
+    match hexOr h with
+    | some b =>
+      match C50.Codecs.unpackPlain C50.Codecs.asciiIdna b with
+      | none => "none"
+      | some n => showCps50 (C50.Codecs.textOf n) ++ " " ++
+          (match C25.packName C50.Codecs.asciiIdna n with | some e => showBytes e | none => "raise")
+    | none => "bad-op"
   | ["https", h] =>
     match hexOr h with
     | some data =>
